@@ -26,6 +26,7 @@ func (a *A) C02() {
 	a.whoMayRead(rd)
 	a.exactFitComplete()
 	a.sectionSeenBeforeComplete()
+	a.failedFetchIncomplete()
 	a.psiTestLive()
 	// the PMT PIDs learned from PATs stay registered: the program map is only ever extended, by updateData (rule I2 of C07);
 	// emptying it per PAT section would unregister the programs of the other sections of a multi-section PAT
@@ -34,6 +35,13 @@ func (a *A) C02() {
 	// call-site rules of C19): nothing between the pool and the parser may withhold a unit
 	a.parserFirst()
 	a.assembledPayload()
+}
+
+// PSICompleteRules runs the rules about isPSIComplete only (R6, R9, R10).
+func (a *A) PSICompleteRules() {
+	a.exactFitComplete()
+	a.sectionSeenBeforeComplete()
+	a.failedFetchIncomplete()
 }
 
 // ---------------------------------------------------------------------------------------------
